@@ -117,6 +117,16 @@ def run(ctx: Ctx) -> Result:
                     want = spec_pl['signature_extensions'] + (['cA', 'cB'] if all(c in spec_ct for c in (b'A', b'B')) else [])
                     if log != want: viol(hist, idx, f'probe run consults exactly {want}', list(log)); return False
                     if repr((caller_cache, caller_contracts, caller_plugins)) != repr(snaps): viol(hist, idx, "caller's dicts unchanged", (caller_cache, caller_contracts, caller_plugins)); return False
+                    # an active entry is used wherever in the script the instruction sits (every block construct, function, evaluated script)
+                    from . import c09 as _c09
+                    names_ = list(_c09.CONTEXTS)
+                    for cname in (names_[(idx + k_) % len(names_)] for k_ in range(3)):
+                        if cname in ('MERKLEVAL', 'TAPROOT'): continue
+                        body_ = probe_sig + (probe_inv if all(c in spec_ct for c in (b'A', b'B')) else b'')
+                        del log[:]
+                        try: F.run_script(_c09.CONTEXTS[cname](body_), {'sigfield1': b'x'})
+                        except BaseException as e: viol(hist, idx, f'probe run inside {cname} succeeds', type(e).__name__ + str(e)); return False
+                        if log != want: viol(hist, idx, f'probe run inside {cname} consults exactly {want}', list(log)); return False
                     # the same registry governs every script of a run_auth_scripts list, not only the first one
                     if all(c in spec_ct for c in (b'A', b'B')):
                         del log[:]
